@@ -38,6 +38,9 @@ T = {
  "C08": ("trace validation with a twin robot: TLC recomputes limit compliance (OnArc) of every unconstrained answer and demands constrained = compliant subset",
          "Each constrained call is paired with the same call on a twin without limits behind the same wrapper stack; TLA+ clause Constrained demands every answer inside the limits, no compliant solution dropped and (away from wrist singularities) nothing invented.",
          "Angles closer than 3e-4 degree to a limit are don't-care.", "4/C08"),
+ "C05": ("TLC-generated scenario lattice with expected verdicts (Gen_Singular) replayed into kinematic_singularity + trace validation of detection against the J4/J6 axis angle of the independent chain and of J4/J6 continuity (Singular!Continuity)",
+         "Every multiple of pi, either side, depths inside/outside the band, both J5 signs, offset classes and wrappers are enumerated with TLC's expected verdict; the oracle's geometric axis angle is a second, independent judge; continuity at exactly singular poses is a TLA+ clause evaluated on each recorded inverse_continuing call.",
+         "Continuity is demanded only under the property's own precondition (oracle arm sensitivity < 0.25 urad, no second singular branch); 'move by the same amount' only for equal J4/J6 sign corrections.", "4/C05"),
 }
 
 REASON_TODO = "check not built yet in this round (planned, see DESIGN.md section 9); not claimed until it runs"
